@@ -34,23 +34,42 @@ def rb(rng, n: int, p: float = 0.5) -> str:
 
 
 def content(rng, n: int) -> str:
-    """Random, sparse, periodic, constant or single-bit content of length n."""
+    """Random, sparse, periodic, constant, single-bit, alternating, palindromic, run-structured or self-overlapping content of length n."""
     if n == 0:
         return ''
     k = rng.random()
-    if k < 0.45:
+    if k < 0.40:
         return rb(rng, n)
-    if k < 0.6:
+    if k < 0.52:
         return rb(rng, n, 0.125)
-    if k < 0.75:
+    if k < 0.64:
         per = rb(rng, rng.choice([1, 2, 3, 8]))
         return (per * (n // len(per) + 1))[:n]
-    if k < 0.82:
+    if k < 0.70:
         return '0' * n
-    if k < 0.89:
+    if k < 0.76:
         return '1' * n
-    i = rng.randrange(n)
-    return '0' * i + '1' + '0' * (n - i - 1)
+    if k < 0.82:
+        i = rng.randrange(n)
+        return '0' * i + '1' + '0' * (n - i - 1)
+    if k < 0.86:
+        return (('01', '10')[rng.randrange(2)] * (n // 2 + 1))[:n]                 # alternating
+    if k < 0.90:
+        h = rb(rng, (n + 1) // 2)
+        return (h + h[::-1][n % 2:])[:n]                                           # a palindrome
+    if k < 0.94:
+        out, bit = [], rng.randrange(2)                                            # a few long runs
+        while sum(map(len, out)) < n:
+            out.append(str(bit) * rng.choice([1, 7, 8, 9, 63, 64, 65, max(n // 3, 1)]))
+            bit ^= 1
+        return ''.join(out)[:n]
+    if k < 0.97:
+        w = rb(rng, rng.choice([8, 16, 24, 64]))                                   # one byte / item repeated, with one odd item somewhere
+        t = (w * (n // len(w) + 1))[:n]
+        i = rng.randrange(n)
+        return t[:i] + ('1' if t[i] == '0' else '0') + t[i + 1:]
+    p = rb(rng, rng.choice([2, 3, 5]))                                             # prefix == suffix (self-overlapping)
+    return (p + rb(rng, max(n - 2 * len(p), 0)) + p)[:n] if n >= 2 * len(p) else rb(rng, n)
 
 
 def mk(cls, bits: str):
@@ -225,10 +244,19 @@ def _str_operand(text: str, bits: str) -> str:
         # white space (line breaks included) is insignificant anywhere in such a string
         k = max(len(text) // 2, 3)
         return text[:k] + ('\n', '\r\n', ' \n ', '\t', '\n\n')[len(bits) % 5] + text[k:] if len(text) > 3 else ' ' + text + '\n'
-    if STR_HISTORY >= 2 and len(bits) >= 2:
+    if STR_HISTORY in (2, 3) and len(bits) >= 2:
         k = len(bits) // 2
         text = f'0b{bits[:k]}, 0b{bits[k:]}' if STR_HISTORY == 2 else f'0b{bits[:k]},0b{bits[k:k + 1]}, 0b{bits[k + 1:]}' if len(bits) > k + 1 else text
+    elif STR_HISTORY in (5, 6) and len(bits) >= 3:
+        # bracketed groups: a plain group that is not at the start, a plain group nested in a repeated one
+        k = len(bits) // 3
+        a, b, c = bits[:max(k, 1)], bits[max(k, 1):max(2 * k, 2)], bits[max(2 * k, 2):]
+        text = f'0b{a}, (0b{b}), 0b{c}' if STR_HISTORY == 5 else f'1*(0b{a}, (0b{b})), 0b{c}'
     try:
+        import bitstring as _bs
+        # the text as the first item of a list of formats (the items of such a list are parsed one by one) - before anything else parses it
+        _bs.pack([text, '0b1'])
+        _bs.pack([text, text, '0b0'])
         for cls in (BitArray, BitStream):
             t = cls(text)
             t.append('0b1')
@@ -237,6 +265,10 @@ def _str_operand(text: str, bits: str) -> str:
             t2 = cls()
             t2 += text
             t2.prepend('0b10')
+            t3 = cls()
+            t3.bits = text              # the property setter route
+            t3.append('0b1')
+            t3.invert()
     except Exception:  # noqa: BLE001 - whatever the library thinks of this text is the judge's business, not this helper's
         pass
     return text
